@@ -287,3 +287,52 @@ def transport_release(ck):
     multicast_cycles(ck)
 
 RELEASE_RULE = RELEASE_RULE + " (6) the multicast proxy through repeated use cycles: " + MCAST_RULE
+
+
+# ---------------------------------------------------------------- early exits and error paths of the adapters
+# (appended block; model coq/Model/C03Adapter.v, theorems C03_adapter_* / C03_faults_* in Properties/C03.v, wire
+#  wrappers coq/Run/RunC03Faults.v, harness command C03_faults = harness/transports/faults.go)
+FAULT_RULE = ("viewers whose attach fails at a scripted step, one after the other on a live stream while 0-2 ordinary viewers "
+              "stay attached: RTSP/TCP, RTSP/UDP, ws-rtsp and WSP clients on real sockets that drop the connection after 0..4 "
+              "answered handshake requests (nothing sent at all, DESCRIBE only, SETUP never followed by PLAY, ...) or right "
+              "after PLAY; HTTP-FLV and ws-FLV through the production handlers flv.ConsumeByHTTP / flv.ConsumeByWebsocket on "
+              "in-memory connections: stream not found, stream without FLV output, the FLV header write fails, a later tag "
+              "write fails, the peer closes; after every attempt and after the end of the stream: the active RTSP / FLV / WSP "
+              "connection counters relative to their values before the case and the consumers registered on the streams; "
+              "the oracle ok_faults demands that every attempt leaves all four exactly as they were (C03_faults_model_passes).")
+
+def fault_witnesses():
+    every = lambda k, n, pts: [[k, n, p] for p in pts]
+    return [
+        [[], every(5, 0, (0, 1, 2, 3, 5))],                       # ws-FLV: every fault point
+        [[], every(4, 0, (0, 1, 2, 3))],                          # HTTP-FLV
+        [[2], [[5, 0, 2]] * 3],                                   # three failed header writes, a ws-rtsp viewer attached
+        [[4], [[4, 0, 2]] * 2 + [[5, 0, 2]]],                     # ... with an HTTP-FLV viewer attached (shared counter)
+        [[0, 5], every(0, 4, range(6))],                          # RTSP/TCP: dropped after 0..4 requests, after PLAY
+        [[], every(1, 4, (0, 2, 5)) + every(2, 4, (0, 1, 3, 4))], # RTSP/UDP, ws-rtsp
+        [[3], every(3, 4, (0, 1, 3, 4, 5))],                      # WSP
+    ]
+
+def fault_rand_case(rng):
+    bg = [rng.choice((0, 1, 2, 3, 4, 5)) for _ in range(rng.choice((0, 0, 1, 1, 2)))]
+    atts = []
+    for _ in range(rng.randint(2, 8)):
+        k = rng.choice((0, 1, 2, 3, 4, 4, 5, 5, 5))
+        if k in (4, 5):
+            atts.append([k, 0, rng.choice((0, 1, 2, 2, 2, 3, 5))])
+        else:
+            atts.append([k, 4, rng.randint(0, 5)])
+    return [bg, atts]
+
+def adapter_faults(ck):
+    rng = ck.rng
+    cases = fault_witnesses() + [fault_rand_case(rng) for _ in range(500 if ck.thorough else 14)]
+    ck.stream("adapter-faults", cases, "C03_faults_run", "C03_faults", "C03_faults_ok",
+              nontrivial=lambda c: len(c[1]) >= 2, sig=lambda c, e, o: "adapter-faults", timeout=1500)
+
+_transport_release_before_faults = transport_release
+def transport_release(ck):
+    _transport_release_before_faults(ck)
+    adapter_faults(ck)
+
+RELEASE_RULE = RELEASE_RULE + " (7) early exits and error paths of the adapters: " + FAULT_RULE
